@@ -194,6 +194,10 @@ def opaque_attr(ex, obj: VOpaque, name, fr):
         return arrays.bitgen_get_state(ex)
     if obj.kind == "iinfo" and name in obj.info:
         return obj.info[name]
+    if obj.kind == "ndflags" and name in ("writeable", "owndata", "c_contiguous", "f_contiguous", "aligned"):
+        # a flag of an array: an unknown boolean, the same one every time it is read for that array (arrays the caller hands in may be
+        # read-only; nothing in the model changes a flag)
+        return VBool(z3.Bool(f"{name}!array{obj.info['of'].addr}"))
     raise Unsupported(f"attribute {name!r} of boundary object {obj.kind}")
 
 
